@@ -37,6 +37,7 @@ def scenarios(tier):
         {'name': 'warm-file+dir', 'procs': [['d1', 'file'], ['d2', 'tree']], 'trash': 'warm'},
         {'name': 'warm-orphan-dir-payload', 'procs': [['d1', 'file'], ['d2', 'file']], 'trash': 'warm-orphan'},
         {'name': 'alt-cold-2files', 'procs': [['v1', 'file'], ['v2', 'file']], 'trash': 'alt-cold'},
+        {'name': 'warm-same-file-twice', 'procs': [['d1', 'file'], ['d1', 'file']], 'trash': 'warm', 'same': True},
     ]
     if q:
         out.append({'name': 'cold-2files(pb2)', 'procs': [['d1', 'file'], ['d2', 'file']], 'trash': 'cold', 'bound': 2})
@@ -72,6 +73,8 @@ def procs(scn):
 def shared(scn):
     if scn['trash'] == 'alt-cold':
         return ['/mnt/v1/.Trash-0', '/mnt/v1/.Trash']
+    if scn.get('same'):
+        return [TD, B + '/' + scn['procs'][0][0]]        # the contended file is shared state too
     return [B + '/.local'] if scn['trash'] == 'cold' else [TD]
 
 
@@ -104,6 +107,9 @@ def terminal(scn, snap, results):
     if any(r['budget'] for r in results):
         return {'label': label, 'viol': ('C04|process-never-finishes', 'livelock', detail)}
     complete = [nm for nm in new if nm + '.trashinfo' in infos]
+    stray = [i for i in infos if i[:-len('.trashinfo')] not in pays]
+    if stray:
+        return {'label': label, 'viol': ('C04|info-without-payload-left-behind', 'stray-info', dict(detail, stray=stray))}
     if len(complete) != len(okp) or len(new) != len(complete):
         return {'label': label, 'viol': ('C04|successes-%d-but-complete-pairs-%d' % (len(okp), len(complete)), 'lost-or-extra-pair', detail)}
     # payloads are exactly the trashed entries (each original matched by exactly one payload)
@@ -112,6 +118,13 @@ def terminal(scn, snap, results):
     for n in spec['nodes']:
         osnap[n[1]] = ('d', n[2], n[3]) if n[0] == 'd' else (('f', n[2], n[3], n[4].encode('latin-1')) if n[0] == 'f' else ('l', n[2], n[3]))
     want = []
+    if scn.get('same'):
+        # both processes were given the SAME file: exactly one can win; the loser must fail cleanly
+        base = B + '/' + scn['procs'][0][0]
+        if len(okp) != 1 or world.under(snap, base + '/a') or len(complete) != 1 or \
+                not world.same_entry(osnap, base + '/a', snap, '%s/files/%s' % (td, complete[0]), dir_mtime=False):
+            return {'label': label, 'viol': ('C04|same-file-trashed-by-two-processes-not-exactly-once', 'same-file', detail)}
+        return {'label': label}
     for (d, kind), r in zip(scn['procs'], results):
         base = ('/mnt/v1/' + d) if d.startswith('v') else (B + '/' + d)
         if r['exit'] == 0:
@@ -228,7 +241,7 @@ def seq_case(c):
             rnd = [m.get(a, None) for a in c['answers']]
             rnd = [v if v is not None else 5000 + i for i, v in enumerate(rnd)]
         for n, ai in enumerate(c['hist']):
-            v, h = put_step(sb, ai, SEQ_ACTIONS[ai], n, randints=rnd, name=c.get('name', 'a'))
+            v, h = put_step(sb, ai, SEQ_ACTIONS[ai], n, randints=rnd, name=(c['names'][n] if c.get('names') else c.get('name', 'a')))
             if rnd is not None:
                 rnd = rnd[1:] if False else rnd       # answers are consumed inside one process; each put restarts the list
             if v:
@@ -253,6 +266,11 @@ def seq_cases(tier):
             for trunc in (None, 'file', 'dir'):
                 # the ENAMETOOLONG truncation branch, colliding; optionally an orphan payload sits at exactly the truncated name
                 out.append({'init': 'empty', 'hist': list(h), 'name': 'N' * ln, 'trunc_orphan': trunc})
+    for k1 in range(3):
+        for k2 in range(3):
+            # an entry named r, then one named r.trashinfo (its info is r.trashinfo.trashinfo): neither may disturb the other
+            out.append({'init': 'empty', 'hist': [k1, k2], 'names': ['r', 'r.trashinfo']})
+            out.append({'init': 'empty', 'hist': [k1, k2], 'names': ['r.trashinfo', 'r']})
     for ans in itertools.product(['pair', 'payload', 'info', 'fresh'], repeat=4):
         out.append({'init': 'empty', 'hist': [0], 'hundred': True, 'answers': list(ans)})
         out.append({'init': 'empty', 'hist': [1], 'hundred': True, 'answers': list(ans)})
